@@ -65,12 +65,56 @@ def hot_rule(rng, rid, res, inert=False):
             rng.choice([0, 0, 100]), items, sval, sthr]
 
 
+# Every field of the three rule structs (corpus `struct-fields.ops` checks the lists against the Go structs by reflection):
+# (index in the rule token, alphabet).  The pair slice makes each of them "the only difference" between two sibling rules.
+FIELDS = {
+    "cb": {"Id": (0, None), "Resource": (1, [1, 2]), "Strategy": (2, [0, 1, 2]), "RetryTimeoutMs": (3, [1, 500, 1000, 3000, 60000]),
+           "MinRequestAmount": (4, [0, 1, 2, 5]), "StatIntervalMs": (5, [1000, 2000, 10000]),
+           "StatSlidingWindowBucketCount": (6, [0, 1, 2, 3, 10]), "MaxAllowedRtMs": (7, [0, 5, 50]), "Threshold": (8, [0, 1, 2, 3, 5]),
+           "ProbeNum": (9, [0, 1, 2, 3])},
+    "flow": {"ID": (0, None), "Resource": (1, [1, 2]), "TokenCalculateStrategy": (2, [0, 1, 2]), "ControlBehavior": (3, [0, 1]),
+             "Threshold": (4, [0, 1, 2, 3, 5, 10, 100]), "RelationStrategy": (5, [0, 1]), "RefResource": (6, [0, 1, 2, 3]),
+             "MaxQueueingTimeMs": (7, [0, 100, 500, 2000]), "WarmUpPeriodSec": (8, [0, 1, 2, 5, 10]), "WarmUpColdFactor": (9, [0, 1, 2, 3, 5]),
+             "StatIntervalInMs": (10, [0, 100, 500, 700, 1000, 2000, 3000]), "LowMemUsageThreshold": (11, [0, 5, 10, 100]),
+             "HighMemUsageThreshold": (12, [0, 1, 2, 3]), "MemLowWaterMarkBytes": (13, [0, 1000, 2000]),
+             "MemHighWaterMarkBytes": (14, [0, 3000, 4000])},
+    "hot": {"ID": (0, None), "Resource": (1, [1, 2]), "MetricType": (2, [0, 1]), "ControlBehavior": (3, [0, 1]),
+            "ParamIndex": (4, [0, 1, 1001, 1002]), "Threshold": (5, [0, 1, 2, 3, 5]), "MaxQueueingTimeMs": (6, [0, 100, 2000]),
+            "BurstCount": (7, [0, 1, 3]), "DurationInSec": (8, [0, 1, 2, 10]), "ParamsMaxCapacity": (9, [0, 100]),
+            "SpecificItems": (10, [0, 2]), "SpecificItems.key": (11, [1, 2, 3]), "SpecificItems.value": (12, [0, 1, 4]),
+            "ParamKey": (13, [0, 3, 4])},
+}
+WIDTH = {"cb": 10, "flow": 15, "hot": 14}
+
+
+def pad(mod, r):
+    return list(r) + [0] * (WIDTH[mod] - len(r))
+
+
+def supported(mod, r):
+    """what the Lean model executes (anything else makes the case ill-formed, not failing)"""
+    if mod == "cb":
+        return r[2] <= 2
+    if mod == "flow":
+        return r[5] <= 1 and r[3] <= 1 and r[2] <= 2 and not (r[2] == 1 and r[4] == 0)
+    return r[2] <= 1 and r[3] <= 1 and r[10] != 1
+
+
 def enc(rules):
     return ",".join(":".join(str(x) for x in r) for r in rules) if rules else "-"
 
 
 RES = {"cb": 1, "flow": 1}
 THR = {"cb": 8, "flow": 4}
+
+
+def req(rng):
+    """a request token: 0-2 positional arguments, sometimes an attachment for key 3 / 4"""
+    k = rng.random()
+    a = "0" if k < 0.15 else (str(rng.choice([1, 1, 2, 3])) if k < 0.7 else f"{rng.choice([1, 2, 3])}.{rng.choice([1, 2, 3])}")
+    if rng.random() < 0.2:
+        a += f"@{rng.choice([3, 3, 4])}={rng.choice([1, 2, 3])}"
+    return a
 
 
 class G:
@@ -82,8 +126,37 @@ class G:
         self.nid += 1
         return self.nid
 
+    nres = 1
+
     def mk(self, mod, res, inert=False):
-        return {"cb": cb_rule, "flow": flow_rule, "hot": hot_rule}[mod](self.rng, self.rid(), res, inert)
+        rng = self.rng
+        r = pad(mod, {"cb": cb_rule, "flow": flow_rule, "hot": hot_rule}[mod](rng, self.rid(), res, inert))
+        if inert:
+            return r
+        # decorations: the less common fields
+        if mod == "flow":
+            if rng.random() < 0.12 and self.nres >= 2:      # associated rule: limits `res` by the traffic of another resource
+                r[5], r[6] = 1, rng.choice([y for y in range(1, self.nres + 1) if y != res])
+            if r[2] == 1 and rng.random() < 0.25:           # warm-up + throttling
+                r[3], r[7] = 1, rng.choice([0, 100, 500, 2000])
+            if rng.random() < 0.05:
+                r[10] = 100
+        elif mod == "hot":
+            if rng.random() < 0.2:
+                r[13] = rng.choice([3, 4])
+            if rng.random() < 0.25:
+                r[4] = rng.choice([1001, 1001, 1002, 1]) if r[13] == 0 else rng.choice([1001, 1002])
+        if rng.random() < 0.04:                             # an invalid rule: must simply be ignored by every load
+            if mod == "cb":
+                r[rng.choice([3, 5])] = 0
+            elif mod == "flow":
+                if r[2] == 1:
+                    r[8] = 0
+                else:
+                    r[5], r[6] = 1, 0
+            elif r[2] == 1:
+                r[8] = 0
+        return r
 
     @staticmethod
     def is_inert(mod, r):
@@ -123,35 +196,18 @@ class G:
                 new.pop(rng.choice(others))
             elif k < 0.52 and others:      # modify one field (value from the field's own domain, so that it matters)
                 i = rng.choice(others)
-                r = new[i]
-                if mod == "cb":
-                    dom = {3: [1, 500, 1000, 3000, 60000], 4: [0, 1, 2, 5], 5: [1000, 2000, 10000], 6: [0, 1, 2, 10], 9: [0, 1, 2, 3],
-                           8: ([1, 2, 3, 5] if r[2] == 2 else [0, 1])}
-                    if r[2] == 0:
-                        dom[7] = [0, 5, 50]
-                elif mod == "flow":
-                    dom = {4: [1, 2, 3, 5, 10, 100], 10: [0, 500, 1000, 2000, 3000]}
-                    if r[3] == 1:
-                        dom[7] = [0, 100, 500, 2000]
-                    if r[2] == 1:
-                        dom[8], dom[9] = [1, 2, 5, 10], [0, 2, 3, 5]
-                    if r[2] == 2:
-                        dom = {11: [5, 10, 100], 12: [1, 2, 3], 13: [1000, 2000], 14: [3000, 4000], 10: [0, 1000, 2000]}
-                        if r[3] == 1:
-                            dom[7] = [0, 100, 500, 2000]
-                    if r[3] == 0 and r[2] == 0 and r[4] >= BIG:
-                        dom = {4: [BIG, BIG + 1, BIG + 5]}
-                else:
-                    dom = {5: [0, 1, 2, 3, 5], 8: [1, 2, 10], 9: [0, 100]}
-                    dom[6 if r[3] == 1 else 7] = [0, 100, 2000] if r[3] == 1 else [0, 1, 3]
-                    if r[10] == 2:
-                        dom[12] = [0, 1, 4]
-                    if r[2] == 0 and rng.random() < 0.5:
-                        # concurrency rule: modify only the field its decisions never look at
-                        dom = {(6 if r[3] == 1 else 7): [0, 1, 3, 100]}
+                r = new[i] = pad(mod, new[i])
+                dom = {ix: al for (ix, al) in FIELDS[mod].values() if al is not None and ix != 1}
+                if mod == "flow" and r[3] == 0 and r[2] == 0 and r[4] >= BIG:
+                    dom = {4: [BIG, BIG + 1, BIG + 5]}
+                if mod == "hot" and r[2] == 0 and rng.random() < 0.4:
+                    dom = {(6 if r[3] == 1 else 7): [0, 1, 3, 100]}     # the field a concurrency rule never looks at
                 f = rng.choice(sorted(dom))
                 vals = [v for v in dom[f] if v != r[f]]
+                old = r[f]
                 r[f] = rng.choice(vals)
+                if not supported(mod, r):
+                    r[f] = old
             elif k < 0.57 and any(self.is_inert(mod, r) for r in new):
                 # modify a never-refusing rule (it stays never-refusing and stat-reusable): the resource's other rules are unchanged
                 i = rng.choice([j for j, r in enumerate(new) if self.is_inert(mod, r)])
@@ -185,6 +241,7 @@ class G:
 def gen_case(rng, cid):
     g = G(rng)
     nres = rng.choice([1, 2, 2, 3, 4])
+    g.nres = nres
     protect = set(rng.sample(range(1, nres + 1), rng.choice([0, 1, 1, min(2, nres)])))
     mods = rng.choice([["cb"], ["cb"], ["flow"], ["flow"], ["hot"], ["hot"], ["cb", "flow"], ["cb", "hot"], ["flow", "hot", "cb"]])
     cur = {}
@@ -216,7 +273,10 @@ def gen_case(rng, cid):
             new = g.edit(m, cur[m], protect, nres)
             if rng.random() < 0.35:
                 x = rng.randint(1, nres)
-                A.append(f"{m}.reloadres {x} {enc([r for r in new if r[1] == x])}")
+                lst = [r for r in new if r[1] == x]
+                if rng.random() < 0.06 and nres > 1:      # a rule naming another resource: the builder must skip it
+                    lst.insert(rng.randint(0, len(lst)), g.mk(m, rng.choice([y for y in range(1, nres + 1) if y != x])))
+                A.append(f"{m}.reloadres {x} {enc(lst)}")
                 cur[m] = [r for r in cur[m] if r[1] != x] + [r for r in new if r[1] == x]
             else:
                 A.append(f"{m}.reload {enc(new)}")
@@ -235,9 +295,9 @@ def gen_case(rng, cid):
             if rng.random() < pin:        # an entry that stays in flight (maybe across a reload)
                 nh += 1
                 live.append(nh)
-                A.append(f"in {nh} {x} {rng.choice([0, 1, 1, 2, 3]) if 'hot' in mods else 0}")
+                A.append(f"in {nh} {x} {req(rng) if 'hot' in mods else 0}")
                 continue
-            arg = f" {rng.choice([0, 1, 1, 2, 3])}" if "hot" in mods else ""
+            arg = f" {req(rng)}" if "hot" in mods else ""
             if "cb" in mods and rng.random() < 0.4:
                 rt = rng.choice([1, 5, 6, 10, 51, 100])
                 arg = (arg or " 0") + f" {rt}"
@@ -313,6 +373,123 @@ def gen_order(rng, cid):
         now += rng.choice([0, 1, 100, 3000])
         A += [f"t {now}", f"e 1 {rng.choice([0, 1])}"]
     return Case(cid, A + ["phase B"], tags=("order-slice",))
+
+
+def gen_pair(rng, cid):
+    """two sibling rules on one resource that differ in exactly ONE field — every field of every rule struct in turn (FIELDS) —
+    get different states; then a reload removes one of them / swaps them / keeps both and adds a rule / turns one into the
+    other: the survivor must keep *its own* controller (an equality or stat-reuse check that ignores the field mixes them up)"""
+    g = G(rng)
+    g.nres = 3
+    now = T0 + rng.randint(0, 10 ** 6)
+    mod = rng.choice(["cb", "flow", "hot", "hot"])
+    name = rng.choice(sorted(FIELDS[mod]))
+    ix, al = FIELDS[mod][name]
+    for _ in range(20):
+        a = g.mk(mod, 1)
+        if mod == "hot":
+            a[10], a[11], a[12] = 2, rng.choice([1, 2]), rng.choice([0, 1, 4])       # equal non-nil items, so Equals can hold
+            if name in ("ParamIndex", "ParamKey") or rng.random() < 0.3:
+                a[13] = rng.choice([3, 4]) if name != "ParamKey" else a[13]
+                a[4] = rng.choice([0, 1001]) if a[13] else a[4]
+            if rng.random() < 0.6:
+                a[5], a[7] = 1, 0                                                     # strict: state shows quickly
+        if mod == "cb" and rng.random() < 0.6:
+            a[2], a[8], a[4], a[3] = 2, 1, rng.choice([0, 1]), 60000
+        if mod == "flow" and name in ("LowMemUsageThreshold", "HighMemUsageThreshold", "MemLowWaterMarkBytes", "MemHighWaterMarkBytes"):
+            a[2], a[11], a[12], a[13], a[14] = 2, 10, 2, 1000, 3000
+        if mod == "flow" and name in ("WarmUpPeriodSec", "WarmUpColdFactor"):
+            a[2], a[4], a[8], a[9] = 1, rng.choice([5, 10]), 2, 3
+        if mod == "flow" and name == "RefResource":
+            a[5], a[6] = 1, 2
+        b = list(a)
+        if al is None:
+            b[ix] = g.rid()
+        else:
+            vals = [v for v in al if v != a[ix]]
+            b[ix] = rng.choice(vals)
+        if supported(mod, a) and supported(mod, b):
+            break
+    pair = [a, b] if rng.random() < 0.5 else [b, a]
+    extra = [g.mk(mod, 2)]
+    A = [f"t {now}"] + ([f"mem {rng.choice([500, 2500, 5000])}"] if mod == "flow" else []) + [f"{mod}.load {enc(pair + extra)}"]
+    def traffic(k):
+        nonlocal now
+        for _ in range(k):
+            if rng.random() < 0.3:
+                now += rng.choice([1, 100, 500, 1000])
+                A.append(f"t {now}")
+            x = rng.choice([1, 1, 1, 2])
+            if mod == "hot":
+                A.append(f"e {x} 0 {rng.choice(['4.5', '6.5', '4.5', '5', '4.5@3=8', '4.5@4=8', '6.7@3=5'])}")
+            elif mod == "cb":
+                A.append(f"e {x} {rng.choice([0, 1, 1])} 0 {rng.choice([0, 6, 51])}")
+            else:
+                A.append(f"e {x} 0")
+    traffic(rng.randint(2, 7))
+    for _ in range(rng.choice([1, 1, 2])):
+        k = rng.random()
+        if k < 0.35 and len(pair) == 2:
+            pair = [pair[1]]                       # the first one is removed
+        elif k < 0.5 and len(pair) == 2:
+            pair = [pair[0]]
+        elif k < 0.65 and len(pair) == 2:
+            pair = [pair[1], pair[0]]
+        elif k < 0.8:
+            pair = pair + [g.mk(mod, 1, inert=True)]
+        else:
+            pair = [list(pair[-1])] + pair[1:]      # the first becomes a copy of the last (or stays, for a single rule)
+        new = pair + extra
+        A.append(f"{mod}.reload {enc(new)}" if rng.random() < 0.5 else f"{mod}.reloadres 1 {enc(pair)}")
+        if mod != "cb":
+            A.append(f"{mod}.rules 1")
+        traffic(rng.randint(2, 6))
+    return Case(cid, A + ["phase B"], tags=("pair-slice", f"{mod}.{name}"))
+
+
+def gen_assoc(rng, cid):
+    """associated-resource flow rules in reload sets: X is limited by the traffic of Y (and Z too, sometimes); Y has its own
+    reject rule.  A reload drops / keeps / modifies the associated rule of X (X keeps another rule); the unchanged rules of Y
+    (and Z) are probed in a later statistic window"""
+    g = G(rng)
+    now = T0 + rng.randint(0, 10 ** 6)
+    X, Y, Z = 1, 2, 3
+    assoc = [g.rid(), X, 0, rng.choice([0, 0, 1]), rng.choice([1, 2, 3]), 1, Y, rng.choice([0, 500]), 0, 0, rng.choice([0, 0, 2000, 3000])] + [0] * 4
+    other = g.mk("flow", X)
+    other[5], other[6] = 0, 0
+    yrule = [g.rid(), Y, 0, 0, rng.choice([1, 2, 3]), 0, 0, 0, 0, 0, rng.choice([0, 0, 1000, 2000])] + [0] * 4
+    zrule = [g.rid(), Z, 0, 0, rng.choice([1, 2]), 1, Y, 0, 0, 0, 0] + [0] * 4
+    rules = [assoc, other, yrule] + ([zrule] if rng.random() < 0.5 else [])
+    if rng.random() < 0.3:
+        rng.shuffle(rules)
+    A = [f"t {now}", f"flow.load {enc(rules)}"]
+    def traffic(k):
+        nonlocal now
+        for _ in range(k):
+            if rng.random() < 0.25:
+                now += rng.choice([1, 100, 400, 600, 1000, 2500])
+                A.append(f"t {now}")
+            A.append(f"e {rng.choice([X, Y, Y, Y, Z])} 0")
+    traffic(rng.randint(3, 8))
+    for _ in range(rng.choice([1, 1, 2])):
+        k = rng.random()
+        new = [list(r) for r in rules]
+        if k < 0.5:
+            new = [r for r in new if r[0] != assoc[0]]                 # the associated rule of X is dropped, X keeps `other`
+        elif k < 0.7:
+            for r in new:
+                if r[0] == assoc[0]:
+                    r[4] += 1                                          # modified (threshold)
+        elif k < 0.85:
+            new = [r for r in new if r[0] != other[0]]                 # the plain rule of X is dropped, the associated one kept
+        else:
+            new.append(g.mk("flow", X, inert=True))
+        A.append(f"flow.reload {enc(new)}" if rng.random() < 0.5 else f"flow.reloadres {X} {enc([r for r in new if r[1] == X])}")
+        rules = new
+        now += rng.choice([0, 500, 1000, 1500, 3000])                  # mostly a later window
+        A.append(f"t {now}")
+        traffic(rng.randint(3, 8))
+    return Case(cid, A + ["phase B"], tags=("assoc-slice",))
 
 
 def gen_wide(rng, cid):
@@ -437,6 +614,10 @@ def gen(ctx, n):
             out.append(gen_conc(ctx.rng, f"c{ctx.seed}-{i}"))
         elif i % 50 == 11:
             out.append(gen_order(ctx.rng, f"o{ctx.seed}-{i}"))
+        elif i % 10 == 9:
+            out.append(gen_pair(ctx.rng, f"p{ctx.seed}-{i}"))
+        elif i % 50 == 22:
+            out.append(gen_assoc(ctx.rng, f"r{ctx.seed}-{i}"))
         elif i % 50 == 44:
             out.append(gen_adaptive(ctx.rng, f"a{ctx.seed}-{i}"))
         elif i % 50 == 36:
@@ -489,7 +670,7 @@ def nontrivial(case, impl):
                     after = True
                 seen_state = True
     if reloaded and after:
-        kinds = "".join(o[0] if not o.startswith(("cb.", "flow.", "hot.")) else o.split()[0][-1] for o in case.ops)
+        kinds = "".join(o[0] if not o.startswith(("cb.", "flow.", "hot.")) or o.split()[0].endswith(".rules") else o.split()[0][-1] for o in case.ops)
         return hash((tuple(o for o in case.ops if "load" in o), kinds))
     return None
 
